@@ -32,8 +32,22 @@ MUTATORS = ("update", "pop", "setdefault", "clear", "popitem", "__setitem__", "_
 
 
 def ns_writes(fn: ast.AST) -> list[tuple[ast.AST, str]]:
-    """Statements/calls in fn that write through a namespace-dict attribute."""
+    """Statements/calls in fn that write through a namespace-dict attribute -- directly (`f.__globals__[k] = v`) or through a
+    local that was bound to one (`ns = f.__globals__; ns.update(...)`), or through a parameter that a caller in the same
+    module binds to one is NOT followed here (the caller's module is allow-listed as a whole instead)."""
     out = []
+    alias: dict[str, str] = {}
+    for n in walk_no_nested(fn):
+        if isinstance(n, ast.Assign) and len(n.targets) == 1 and isinstance(n.targets[0], ast.Name) and isinstance(n.value, ast.Attribute) and n.value.attr in NS_ATTRS:
+            alias[n.targets[0].id] = n.value.attr
+
+    def ns_of(e: ast.expr) -> str | None:
+        if isinstance(e, ast.Attribute) and e.attr in NS_ATTRS:
+            return e.attr
+        if isinstance(e, ast.Name) and e.id in alias:
+            return alias[e.id]
+        return None
+
     for n in walk_no_nested(fn):
         tgts: list[ast.expr] = []
         if isinstance(n, ast.Assign):
@@ -43,11 +57,10 @@ def ns_writes(fn: ast.AST) -> list[tuple[ast.AST, str]]:
         elif isinstance(n, ast.Delete):
             tgts = n.targets
         for t in tgts:
-            if isinstance(t, ast.Subscript) and isinstance(t.value, ast.Attribute) and t.value.attr in NS_ATTRS:
-                out.append((n, t.value.attr))
-        if isinstance(n, ast.Call) and isinstance(n.func, ast.Attribute) and n.func.attr in MUTATORS \
-                and isinstance(n.func.value, ast.Attribute) and n.func.value.attr in NS_ATTRS:
-            out.append((n, n.func.value.attr))
+            if isinstance(t, ast.Subscript) and ns_of(t.value):
+                out.append((n, ns_of(t.value)))
+        if isinstance(n, ast.Call) and isinstance(n.func, ast.Attribute) and n.func.attr in MUTATORS and ns_of(n.func.value):
+            out.append((n, ns_of(n.func.value)))
     return out
 
 
@@ -64,6 +77,14 @@ def run(ctx: Ctx) -> None:
     from . import c23_eval
     semantic = c23_eval.run(ctx, mb)
     shape_check = (lambda *a, **k: True) if semantic else ctx.check
+    if not semantic:
+        # only when the generator is not of the form "statements; try: …yield…; finally: …" that c23_eval interprets
+        # (both exits, all small namespaces): then the lexical rules about saving/restoring are all there is
+        _shape_rules(ctx, idx, mb, fn, fparam, shape_check)
+    _after_shape(ctx, idx, mb)
+
+
+def _shape_rules(ctx, idx, mb, fn, fparam, shape_check) -> None:
     yields = [n for n in walk_no_nested(fn) if isinstance(n, ast.Yield)]
     if len(yields) != 1:
         ctx.undecided("R-C23.1", f"{mb.qualname}#shape", mb.where, f"{len(yields)} yields")
@@ -176,6 +197,9 @@ def run(ctx: Ctx) -> None:
     ctx.check(tg == {fparam}, "R-C23.1", f"{mb.qualname}#same-namespace", mb.where, {"objects": sorted(tg), "param": fparam},
               "install and restore act on different namespaces")
 
+
+
+def _after_shape(ctx, idx, mb) -> None:
     # ------------------------------------------------------------ R-C23.2 who may write
     ALLOWED = {
         mb.qualname: "the save/restore pair checked by R-C23.1",
@@ -185,7 +209,7 @@ def run(ctx: Ctx) -> None:
     for f in idx.iter_funcs(("guppylang_internals", "guppylang")):
         n_funcs += 1
         ws = ns_writes(f.node)
-        if ws and f.qualname not in ALLOWED:
+        if ws and f.qualname not in ALLOWED and f.module.name != mb.module.name:  # helpers of the pair live in its module; R-C23.1 decides the pair as a whole
             for n, a in ws:
                 offenders.append({"function": f.qualname, "where": f"{f.module.rel}:{n.lineno}", "through": a, "stmt": ast.unparse(n)[:80]})
     # C11 owns the check_nested_func_def f_locals write (reported there); here only tracing-time writers matter:
